@@ -131,7 +131,7 @@ func vf01ApplyMutators(t *rapid.T, uc *UConn, m *vf01Model) {
 	n := rapid.IntRange(0, 6).Draw(t, "nmut")
 	for i := 0; i < n; i++ {
 		l := fmt.Sprintf("mut%d", i)
-		switch rapid.IntRange(0, 7).Draw(t, l) {
+		switch rapid.IntRange(0, 8).Draw(t, l) {
 		case 0:
 			r := rapid.SliceOfN(rapid.Byte(), 32, 32).Draw(t, l+"_random")
 			if err := uc.SetClientRandom(r); err != nil {
@@ -247,6 +247,26 @@ func vf01ApplyMutators(t *rapid.T, uc *UConn, m *vf01Model) {
 			if a != b {
 				m.kinds = append(m.kinds, "swap-ext")
 			}
+		case 8: // pin (or switch off) the padding extension: no length functor, WillPad / PaddingLen set by the caller
+			var pe *UtlsPaddingExtension
+			for _, e := range uc.Extensions {
+				if x, ok := e.(*UtlsPaddingExtension); ok {
+					pe = x
+				}
+			}
+			if pe == nil {
+				pe = &UtlsPaddingExtension{}
+				max := len(uc.Extensions)
+				if max > 0 && vf01WireType(uc.Extensions[max-1]) == 41 {
+					max--
+				}
+				pos := rapid.IntRange(0, max).Draw(t, l+"_padpos")
+				uc.Extensions = append(uc.Extensions[:pos:pos], append([]TLSExtension{pe}, uc.Extensions[pos:]...)...)
+			}
+			pe.GetPaddingLen = nil
+			pe.WillPad = rapid.IntRange(0, 3).Draw(t, l+"_willpad") != 0
+			pe.PaddingLen = rapid.SampledFrom([]int{0, 1, 2, 37, 100, 201, 300, 511}).Draw(t, l+"_padlen")
+			m.kinds = append(m.kinds, "pad-fixed")
 		}
 	}
 }
@@ -352,6 +372,16 @@ func TestVerifC01WireIsRaw(t *testing.T) {
 			m.alpn = a
 		}
 		vf01ApplyMutators(rt, uc, m)
+		// a padding extension without length functor is sent exactly as the caller set it
+		padFixed, padWant := false, -1
+		for _, e := range uc.Extensions {
+			if x, ok := e.(*UtlsPaddingExtension); ok && x.GetPaddingLen == nil {
+				padFixed = true
+				if x.WillPad {
+					padWant = x.PaddingLen
+				}
+			}
+		}
 		// expected extension-type sequence (padding excluded: its presence depends on the new length)
 		var wantTypes []int
 		for _, e := range uc.Extensions {
@@ -364,6 +394,9 @@ func TestVerifC01WireIsRaw(t *testing.T) {
 					wantTypes = append(wantTypes, 0) // SetSNI put a DNS name into it, so it is sent even if it was not before
 				}
 				continue
+			}
+			if _, isPad := e.(*UtlsPaddingExtension); isPad {
+				continue // judged separately (padFixed)
 			}
 			if wt := align[e]; wt != -3 && wt != 21 {
 				wantTypes = append(wantTypes, wt)
@@ -464,6 +497,15 @@ func TestVerifC01WireIsRaw(t *testing.T) {
 			}
 			if m.hasSid && !bytes.Equal(h.SessionID, m.sid) {
 				st.Violation(rt, "%s: Hello.SessionId edit not visible: wire %x, set %x", what, h.SessionID, m.sid)
+			}
+			if padFixed {
+				got := -1
+				if e := h.Ext(21); e != nil {
+					got = len(e.Body)
+				}
+				if got != padWant {
+					st.Violation(rt, "%s: padding extension without length functor set to %d bytes by the caller (-1 = switched off), the wire has %d", what, padWant, got)
+				}
 			}
 			if got := vf01TypesNoPadding(h); fmt.Sprint(got) != fmt.Sprint(wantTypes) {
 				st.Violation(rt, "%s: extension list edits not visible: wire %v, expected %v", what, got, wantTypes)
